@@ -54,10 +54,17 @@ def _work1(shard):
         a = ev.Acc()
         a.harness_errors.append(f"{e}\n{traceback.format_exc()}")
         return a
-    except Exception as e:  # noqa: BLE001
+    except (KeyboardInterrupt, SystemExit):
+        raise
+    except BaseException as e:  # noqa: BLE001 - a BaseException (e.g. CancelledError) escaping a worker would kill it and hang the pool
         a = ev.Acc()
         tb = traceback.extract_tb(e.__traceback__)
-        if tb and tb[-1].filename.startswith(os.environ.get("VERIF_REPO", "/repo").rstrip("/") + "/"):
+        root = os.environ.get("VERIF_REPO", "/repo").rstrip("/") + "/"
+        if not isinstance(e, Exception):
+            # not an ordinary exception: blame the library when any frame of the traceback is inside it
+            lib = [f for f in tb if f.filename.startswith(root)]
+            tb = tb[: tb.index(lib[-1]) + 1] if lib else tb
+        if tb and tb[-1].filename.startswith(root):
             # raised INSIDE the library on a path where the harness expected it to succeed: a finding about
             # the library (exit 1), not a harness error.  Replay = re-run of this shard.
             where = f"{tb[-1].filename.split('/src/')[-1]}:{tb[-1].name}"
@@ -115,8 +122,16 @@ def main(argv):
     else:
         ctx = mp.get_context("fork")
         with ctx.Pool(min(nproc, len(shards)), initializer=_init, initargs=(pid,)) as pool:
-            for a in pool.imap_unordered(_work, shards, chunksize=1):
-                acc.merge(a)
+            it = pool.imap_unordered(_work, shards, chunksize=1)
+            limit = int(os.environ.get("VERIF_SHARD_TIMEOUT", "0") or 0) or (1800 if tier == "quick" else 6 * 3600)
+            for _ in range(len(shards)):
+                try:
+                    acc.merge(it.next(timeout=limit))
+                except mp.TimeoutError:
+                    # a worker died (or a shard hangs): never wait forever, never call it a verdict
+                    print(f"HARNESS-ERROR no shard result within {limit}s (a worker process died or a shard does not terminate)")
+                    pool.terminate()
+                    return 2
     wall = time.time() - t0
     if acc.harness_errors:
         for e in acc.harness_errors[:5]:
